@@ -4,8 +4,11 @@ bfs engine over edit histories; in every reached state root.src is parsed from s
 (types, values, contexts, every position) with the live AST."""
 from __future__ import annotations
 
+import ast
+
 from .. import edits as E
 from .. import explore as X
+from .. import oracle as O
 from ..fstnav import live_vs_parse
 from ..programs import PROGRAMS
 
@@ -60,6 +63,42 @@ def shards(tier):
     return out
 
 
+def describe_request(src, op):
+    """Input-side facts about a request (pre-state source + request only) for known-finding selectors.
+    tail_on_continuation_line_at_eof: the request deletes the trailing elements of an undelimited statement-level comma list
+    (del / import / from-import / global / nonlocal) that start on a backslash-continued line of their own and are followed
+    by nothing but whitespace up to the end of the source."""
+    out = {}
+    try:
+        k = op['op']
+        tree = ast.parse(src)
+        lines = src.split('\n')
+        path = tuple(tuple(x) for x in op['path'])
+        if k in ('remove', 'cut'):
+            par, (fld, i) = O.get_path(tree, path[:-1]), path[-1]
+            j = None if i is None else i + 1
+        elif k in ('delitem',):
+            par, fld, i = O.get_path(tree, path), op['field'], op['idx']
+            j = i + 1
+        elif k in ('cut_slice', 'del_slice') or (k == 'put_slice' and (op.get('code') or [None])[0] is None):
+            par, fld, i, j = O.get_path(tree, path), op['field'], op['start'], op['stop']
+        else:
+            return out
+        lst = getattr(par, fld, None)
+        if isinstance(par, (ast.Delete, ast.Import, ast.ImportFrom, ast.Global, ast.Nonlocal)) and isinstance(lst, list) and \
+                isinstance(i, int) and i < 0:
+            i += len(lst)
+        if isinstance(par, (ast.Delete, ast.Import, ast.ImportFrom, ast.Global, ast.Nonlocal)) and isinstance(lst, list) and \
+                isinstance(i, int) and 0 < i < len(lst) and (j is None or j in ('end',) or j >= len(lst)) and hasattr(lst[i], 'lineno'):
+            first, prev = lst[i], lst[i - 1]
+            rest = lines[par.end_lineno - 1][O.byte2char(lines[par.end_lineno - 1], par.end_col_offset):] + ''.join(lines[par.end_lineno:])
+            if first.lineno > prev.end_lineno and lines[first.lineno - 2].rstrip().endswith('\\') and not rest.strip():
+                out['tail_on_continuation_line_at_eof'] = True
+    except Exception:  # noqa: BLE001  (description only)
+        pass
+    return out
+
+
 def run_shard(desc, tier, res):
     import fst
     src0 = PROGRAMS[desc['prog']]
@@ -73,8 +112,9 @@ def run_shard(desc, tier, res):
         res.traces += 1
         bad = live_vs_parse(root, 'Module')
         if bad:
-            res.fail(cid, 'C01:live-tree-differs-from-parse', f'start={src0!r}\npre={pre[2]!r}\n{bad}',
-                     {'op': hist[-1]['op'], 'prog': desc['prog']}, {'src': src0, 'hist': hist},
+            res.fail(cid, 'C01:source-does-not-parse' if bad.startswith('source does not parse') else 'C01:live-tree-differs-from-parse',
+                     f'start={src0!r}\npre={pre[2]!r}\n{bad}',
+                     {'op': hist[-1]['op'], 'prog': desc['prog'], **describe_request(pre[2], hist[-1])}, {'src': src0, 'hist': hist},
                      E.render(src0, hist))
             return False
         if c2[2] != pre[2]:
@@ -93,4 +133,4 @@ def replay(rep, res):
         print('  ->', repr(root.src))
     bad = live_vs_parse(root, 'Module')
     if bad:
-        res.fail('replay', 'C01:live-tree-differs-from-parse', bad)
+        res.fail('replay', 'C01:source-does-not-parse' if bad.startswith('source does not parse') else 'C01:live-tree-differs-from-parse', bad)
